@@ -238,6 +238,17 @@ def mergeSVθ (thr : ℚ) (a : AmpsF) (b : List (Fock × GQ × ℚ)) : AmpsF :=
     let f := x.2.2 * y.2.2
     if thr < GQ.normSq pa / f then some (x.1 ++ [y.1], pa, f) else none
 
+/-- the same recombination without any threshold: every product of a component of `a` with a component
+of `b` -/
+def mergeAllF (a : AmpsF) (b : List (Fock × GQ × ℚ)) : AmpsF :=
+  a.flatMap fun x => b.map fun y => (x.1 ++ [y.1], x.2.1 * y.2.1, x.2.2 * y.2.2)
+
+/-- squared modulus of the real amplitude of a component -/
+def sqF (z : List Fock × GQ × ℚ) : ℚ := GQ.normSq z.2.1 / z.2.2
+
+/-- the test of `_merge_sv`, `abs(pa) > sqrt(prob_threshold)`, on the squared modulus -/
+def keepF (thr : ℚ) (z : List Fock × GQ × ℚ) : Bool := decide (thr < sqF z)
+
 def evolveTermθ {m : ℕ} (U : Matrix (Fin m) (Fin m) GQ) (thr : ℚ) (groups : List Fock) : AmpsF :=
   (groups.foldl (fun (acc : AmpsF × Bool) (s : Fock) =>
     if s.sum = 0 then (acc.1.map fun x => (x.1 ++ [s], x.2.1, x.2.2), acc.2)
